@@ -271,7 +271,11 @@ where
                     (None, None, vec![])
                 }
             }
-            SpacesArgs::SpaceUpdate { .. } => unimplemented!(),
+            // Key rotation ("update") of a space is not supported yet. A remote peer chose this
+            // variant, so we need to reject it instead of crashing the process.
+            SpacesArgs::SpaceUpdate { .. } => {
+                return Err(ManagerError::UnexpectedMessage(message.hash()));
+            }
             // Received encrypted application data for a space.
             SpacesArgs::Application { space_id, .. } => {
                 let Some(space) = self.space(*space_id).await? else {
